@@ -16,3 +16,12 @@ Definition show_case (t : Z) (q : Q) : string :=
   | Ok t' => "D:" ++ show_Z t' ++ ";" ++ show_res (sub_dt t' q) ++ ";" ++ show_Z (t' - t)
   | e => show_res e
   end.
+
+(* the same observation from the f64-faithful refinement, followed by the nanosecond
+   difference to the exact-rational model (0, or ±1 when the f64 product crosses a .5) *)
+Definition show_case_f64 (t : Z) (s : bool) (m : positive) (e : Z) : string :=
+  match add_dt_f64 t s m e with
+  | Ok t' => "D:" ++ show_Z t' ++ ";" ++ show_res (sub_dt_f64 t' s m e) ++ ";" ++ show_Z (t' - t)
+             ++ ";" ++ match add_dt t (f64_value s m e) with Ok t2 => show_Z (t' - t2) | _ => "x" end
+  | e => show_res e
+  end.
